@@ -144,7 +144,17 @@ def apply_layout(a, layout):
     raise ValueError(layout)
 
 
-def id_list(present, extra=()):
-    """Subsets / permutations of ids incl. absent ones."""
-    pool = list(present) + list(extra)
+def id_list(present, extra=(), dtype=None):
+    """Subsets / permutations of ids incl. absent ones.  With ``dtype`` (the raster's dtype) an extra id is kept only
+    if it stays distinct from every other id once rounded to that dtype: ids are compared with the raster in the
+    raster's precision, so 7.0000001 against a float32 raster IS the id 7.0 listed twice (duplicate ids are outside
+    the documented domain)."""
+    pool = list(present)
+    for e in extra:
+        if dtype is not None and np.dtype(dtype).kind == "f":
+            key = lambda v: float(np.dtype(dtype).type(v))
+        else:
+            key = float
+        if all(key(e) != key(q) for q in pool):
+            pool.append(e)
     return st.lists(st.sampled_from(pool), min_size=1, max_size=max(1, len(pool)), unique=True)
